@@ -141,12 +141,15 @@ PROPS["C17"] = {
 PROPS["C06"] = {
     "level": "exploration",
     "budget_s": {"quick": 70, "thorough": 2400},
-    "modes": [{"name": "", "runs": {"quick": 1200, "thorough": 30000}, "chunk": 50}],
-    "rule": ("one run = 2 (quick) / 2-3 (thorough) tenants on ONE database behind ONE registry whose Contextualizer takes the network id from the request (real routers and gRPC servers serve all tenants; same strings used in all tenants). "
+    "modes": [{"name": "", "runs": {"quick": 1200, "thorough": 30000}, "chunk": 50},
+              {"name": "manager", "runs": {"quick": 700, "thorough": 20000}, "chunk": 50}],
+    "rule": ("mode 'manager' (the property's own observation point): 2-3 sql.Persisters / Traversers / check and expand engines with different network ids over ONE connection, driven with IDENTICAL UUIDs in every network (through the string API two networks never share an object UUID, which would hide a missing nid predicate); "
+             "the other tenants hold random tuples and a block of 0..250 tuples; tenant A writes, deletes by value (blocks beyond any internal delete chunk, and tuples that exist only elsewhere), deletes by query (16 shapes) and transacts; after EVERY operation each other tenant's listings (5 query shapes, 3 page sizes), exists, subject-set expansion and rewrite traversals, check and expand results are unchanged, A lists exactly its own model, and checks in A are explained by A's own data. "
+             "mode '': one run = 2 (quick) / 2-3 (thorough) tenants on ONE database behind ONE registry whose Contextualizer takes the network id from the request (real routers and gRPC servers serve all tenants; same strings used in all tenants). "
              "The other tenants are populated, a fixed set of their observables is recorded (full listing, 5 query shapes over REST and gRPC, 5 checks, 5 expands, hash of their raw rows), then 4-25 API operations run in tenant A "
              "(the C04 mix incl. delete-by-empty-query over gRPC and deletes aimed at relationships that exist only in another tenant). After EVERY operation: every recorded observable of every other tenant is unchanged and equals its model; "
              "tenant A's listing and checks equal A's own model; a relationship stored only in another tenant is not allowed in A. non-trivial = the other tenants hold data; distinct = hash of the history."),
-    "probes": ["ops_in_A", "probe_delete_in_A", "probe_foreign_check"],
+    "probes": ["ops_in_A", "probe_delete_in_A", "probe_foreign_check", "probe_delete_by_value_in_A", "probe_delete_over_100_in_A", "probe_delete_by_query_in_A"],
     "real": REAL_S + ["ketoctx.Contextualizer / HTTP middleware / gRPC interceptor options of the real registry (driver.NewDefaultRegistry) carry the tenant"], "stub": STUB_S,
     "fault_kinds": {},
     "assumptions": ["tenants are distinguished by the network id returned by the Contextualizer, as in a multi-tenant embedding of keto"],
